@@ -21,7 +21,14 @@ RULE = ("case = well-formed workflow (2-7 targets) + backend slurm|sge|lsf + per
         "finished, injected error) is named in the output and all later ones are still attempted; exit status 0; after "
         "the scheduler carried the cancellations out none of the successfully cancelled targets shows submitted/running "
         "and a following run may submit them; a declined prompt sends no command. Non-trivial: >=3 selected targets "
-        "with a failure injected at a non-last position. Distinct = SHA-1 of canonical case JSON.")
+        "with a failure injected at a non-last position. Local backend, real processes: (i) random task DAGs with "
+        "`gwf cancel <name>` at random times (a cancel that reached a running task stops it, nothing unselected is "
+        "cancelled); (ii) 3-7 independent targets whose latest job is stale (accepted by a pool that was killed and "
+        "restarted on the same or another port), live, finished or never submitted, then one `gwf cancel` of all or "
+        "of a subset: exit 0, every selected live target's process is gone within 5 s and it no longer shows "
+        "submitted/running, unselected live ones keep running, every selected stale/finished/never target is named "
+        "in the output (non-trivial: a live and an uncancellable target selected together). "
+        "Distinct = SHA-1 of canonical case JSON.")
 ASSUMPTIONS = [
     "scancel --verbose / qdel / bkill as simulated from their manuals (error text for unknown or finished jobs)",
     "fault positions enumerated over the sequence of cancel commands of one invocation",
@@ -57,7 +64,9 @@ def _local_extra():
     from vlib import realpool
 
     return [{"name": "local_real", "strategy": lambda tier: realpool.real_case(5 if tier == "quick" else 8),
-             "examples": {"quick": 4, "thorough": 64}, "wall_s": 240}]
+             "examples": {"quick": 4, "thorough": 64}, "wall_s": 240},
+            {"name": "local_restart_cancel", "strategy": lambda tier: realpool.restart_cancel_case(5 if tier == "quick" else 7),
+             "examples": {"quick": 6, "thorough": 64}, "wall_s": 300}]
 
 
 EXTRA_STRATEGIES = _local_extra()
@@ -68,13 +77,17 @@ def run_local(case):
     """Local backend: real worker pool, `gwf cancel` through the real client."""
     from vlib import realpool
 
+    if case.get("kind") == "restart-cancel":
+        viols, labels, info = realpool.run_restart_cancel(case)
+        mine = [Violation(dict(sig, backend="local"), msg) for p, sig, msg in viols]
+        return CaseResult(mine, bool(info.get("nontrivial")), sorted(set(labels) | {"backend-local", "real-processes"}))
     viols, labels, info = realpool.run_real(case)
     mine = [Violation(dict(sig, backend="local"), msg) for p, sig, msg in viols if p == "C17"]
     return CaseResult(mine, bool(info.get("cancel_hit_running")), sorted(set(labels) | {"backend-local", "real-processes"}))
 
 
 def run_case(case):
-    if case.get("kind") == "real":
+    if case.get("kind") in ("real", "restart-cancel"):
         return run_local(case)
     desc, flavour = case["desc"], case["backend"]
     cmd = CANCEL_CMD[flavour]
